@@ -18,7 +18,7 @@ OBLIGATIONS = ['PGA.Estimate.' + t for t in [
     'C07_H', 'C07_G', 'C07_S', 'C07_Cp', 'C07_G_eq_H_minus_TS', 'C07_G_exists', 'C07_units_H', 'C07_units_G', 'C07_units_S',
     'C07_units_Cp', 'C07_bad_units', 'C07_selements', 'C07_falsy_flags', 'C07_S_offset', 'C07_G_offset', 'C07_Sdim_offset',
     'C07_sel_error', 'C07_corr_ignores_flag', 'C07_tab_units_ref', 'C07_tab_R_SI', 'C07_tab_exact_ratios', 'C07_tab_keys',
-    'C07_tab_doc_units', 'C07_tab_selements']]
+    'C07_tab_doc_units', 'C07_tab_selements', 'C07_conversion', 'C07_tab_conversion']]
 RULE = ('case = (correlation object, T, unit string, S_elements flag).  Objects: estimates of molecules decomposed immediately before '
         '(seed list + generated chains with OH/=O/branch/Pt substituents, per library), estimates of random mappings, and the own '
         'correlation of groups of every shipped library.  Unit strings: EVERY key the gas-constant table accepts, every key with the '
@@ -111,7 +111,8 @@ def oracle_object(ctx, inp, ev, T, units, flags, keys, sel_sum=None, is_estimate
 
     def expect(nd, factor):
         if nd[0] == 'err':
-            return nd
+            # which of two due errors is raised is not part of the statement (the tie with the model pins the order)
+            return nd if factor is not None else ('err', 'any')
         if factor is None:
             return ('err', 'KeyError')
         return ('ok', float(nd[1]) * factor)
@@ -356,6 +357,8 @@ def run(ctx):
                 ctx.disagree('corr:c07.corr', dict(inp, part=what), i, m)
                 return False
             L.compare_object(info, ev, rep, sc, float(T), units, flags, 0.0, ('nd', 'dim'), bad)
+    L.floors(ctx, {'units_accepted': 16, 'molecules': 60, 'group_correlations': 60, 'dim_cases': 8000, 'unit_HG': 3000, 'unit_SCp': 3000,
+                   'unit_rejected': 400, 'G=H-TS': 2000, 'unit_pairs': 8000, 'elemental_cases': 150, 'elemental_error_cases': 18})
 
 
 def replay(ctx, rec):
